@@ -45,6 +45,14 @@ theorem generated_steps_in_program_order (σ : World) (parent : Option String) (
   rw [generated_eq_reference σ parent p kind code hs hgen, (run_trace_no_handler σ parent p kind hh).1]
   exact steps_in_program_order σ parent p kind
 
+/-- …and for the whole pipeline, from the tokens the caller wrote: whatever the parser accepts (any behaviour of syn),
+    the code expanded from it emits its events in step order. -/
+theorem accepted_steps_in_program_order (o : Oracle) (toks : Toks) (σ : World) (parent : Option String) (p : Input)
+    (kind : Kind) (code : Code) (hparse : parseMacroInput o toks = .ok p) (hd : PlainInvocation p kind)
+    (hgen : gen p kind = .ok code) (hh : p.handler = none) :
+    (keysOf (evalCode σ parent code).trace).Pairwise (· ≤ ·) :=
+  generated_steps_in_program_order σ parent p kind code (accepted_supported o toks p kind hparse hd) hgen hh
+
 /-- **The step barrier under every schedule, for the whole run.**  Take any global order `t` of the events of a macro
     invocation's step loop that respects what threads guarantee (`Lin`: the caller's events in program order, each
     forked chain's events in its own order after its fork, a join only once the joined thread has finished — nothing
